@@ -144,6 +144,9 @@ def run_one(sim, params):
                                     "accepted sequence (position %d: got %r, accepted %r; %d received, %d accepted); %r"
                                     % (ci, s, r, bad, g[bad][:12] if bad < len(g) else None,
                                        a[bad][:12] if bad < len(a) else None, len(g), len(a), desc))
+                if final and c.get("closed") == s and len(g) != len(a):
+                    raise Violation("lost", "closed", "connection %d %s->%s, closed by %s: %d messages accepted by send() before "
+                                    "close() but %d returned by the peer's recv(); %r" % (ci, s, r, s, len(a), len(g), desc))
                 if final and not c.get("closed") and len(g) != len(a):
                     raise Violation("lost", "conn", "connection %d %s->%s at quiescence: %d messages accepted by send() "
                                     "but %d returned by recv(); %r" % (ci, s, r, len(a), len(g), desc))
@@ -258,7 +261,7 @@ def run_one(sim, params):
         counters = {}
         nsteps = sim.randint("nsteps", 30, params["steps"])
         for n in range(nsteps):
-            op = sim.wpick("op", [(6, "step"), (6, "send"), (4, "recv"), (1, "poll"), (1, "busy"), (1, "big")])
+            op = sim.wpick("op", [(6, "step"), (6, "send"), (4, "recv"), (1, "poll"), (1, "busy"), (1, "big"), (1, "close")])
             side = sim.pick("side", ["I", "T"])
             if op == "step" or not conns:
                 step(side)
@@ -303,6 +306,13 @@ def run_one(sim, params):
                     sock.poll(sim.pick("poll.ev", ["send", "acks", "recv"]), 0)
                 elif op == "busy":
                     sock.setsockopt(nfc.llcp.SO_RCVBSY, sim.choose("busy.v", 2))
+                elif op == "close" and not conns[ci].get("closed") and sim.chance("close.really", 0.3):
+                    # the application closes its end, possibly with accepted messages still in the send queue: they
+                    # go out before the DISC (close() itself waits for the peer's answer in a helper task)
+                    conns[ci]["closed"] = side
+                    sim.probe("close.with_%d_queued" % min(2, len(accepted[(ci, side)]) - len(received[(ci, other[side])])))
+                    k.spawn(sock.close, name="close-%d%s" % (ci, side), daemon=True)
+                    w5.settle(k)
             except nfc.llcp.Error as e:
                 sim.probe("op.error_%d" % e.errno)
             check_prefix()
